@@ -410,7 +410,7 @@ def run_both(bdir, cases, tag, shards=None, timeout=3600):
     return result
 
 
-PREFIX = {'GRAPH': 'G', 'UPD': 'U', 'E2E': 'E', 'LAYOUT': 'L', 'WAFF': 'W', 'RNG': 'R'}
+PREFIX = {'GRAPH': 'G', 'UPD': 'U', 'E2E': 'E', 'LAYOUT': 'L', 'WAFF': 'W', 'RNG': 'R', 'PARSE': 'P', 'RAFF': 'A'}
 
 
 def case_id(line):
